@@ -577,7 +577,7 @@ func AppendBinaryValue(data []byte, fieldType uint8, value interface{}) ([]byte,
 				microseconds := uint32(ts.Nanosecond() / 1000)
 				t = AppendUint32(t, microseconds)
 			}
-		case TypeDate:
+		case TypeDate, TypeNewDate:
 			// format: 2006-01-02
 			ts, err := time.Parse("2006-01-02", v)
 			if err != nil {
